@@ -7,6 +7,9 @@
 import os, subprocess, sys, json, time
 ROOT = os.path.dirname(os.path.dirname(os.path.abspath(__file__)))
 
+CUR = [None]
+
+
 def _term(signum, frame):
     raise KeyboardInterrupt()
 
@@ -26,7 +29,14 @@ def main():
     try:
         for p in props:
             t0 = time.time()
-            r = subprocess.run([os.path.join(ROOT, "check"), p, "--tier", "quick"], capture_output=True, text=True, cwd=ROOT)
+            # own session: on interruption only this check's process group is killed (vp runs share the
+            # process namespace and /repo with the interactive session: never run two users of /repo at once)
+            proc = subprocess.Popen([os.path.join(ROOT, "check"), p, "--tier", "quick"], stdout=subprocess.PIPE,
+                                    stderr=subprocess.PIPE, text=True, cwd=ROOT, start_new_session=True)
+            CUR[0] = proc
+            out, _ = proc.communicate()
+            CUR[0] = None
+            r = subprocess.CompletedProcess(proc.args, proc.returncode, out, "")
             lines = [l for l in r.stdout.splitlines() if l.startswith(("VIOLATION", "OK", "KNOWN", "INFRA"))]
             info = ""
             for l in lines:
@@ -45,7 +55,11 @@ def main():
     except KeyboardInterrupt:
         print("interrupted")
     finally:
-        subprocess.run("ps -eo pid,args | grep -E 'orchestrate/core.py|harness/target/release/' | grep -v grep | awk '{print $1}' | xargs -r kill", shell=True)
+        if CUR[0] is not None:
+            try:
+                os.killpg(CUR[0].pid, 15)
+            except Exception:
+                pass
         subprocess.run(["git", "-C", "/repo", "checkout", "--", "."])
         subprocess.run(["git", "-C", "/repo", "clean", "-fdq", "--", "cadence", "cadence-macros"])
     return 0
